@@ -95,6 +95,9 @@ def run(ctx):
     for g in range(n_graphs):
         nn = rng.randint(2, 8)
         names = ['n%d' % i for i in range(1, nn + 1)]
+        if rng.random() < 0.2:
+            # a rule name is a plain string, per-cent signs and all: a reference is looked up verbatim
+            names = [nm + rng.choice(['%', '%%', '%(k)s', '%s', '100%']) if rng.random() < 0.5 else nm for nm in names]
         pid = [0]
         rules = []
         chain = rng.random() < 0.3
@@ -115,11 +118,16 @@ def run(ctx):
                 rules[k] = (names[k], ev.rule(rng.choice(['zz', 'yy'])))
         dflt = rng.choice([('opt', None), ('name', names[-1]), ('check', ev.role('r1')), None, ('opt', 'zz')])
         queries = rng.sample(names, min(3, nn)) + ['zz']
+        # some of the names are registered in code with scope types: the scope gate belongs to the name
+        # that is ENFORCED, never to a name it merely refers to
+        registered = [(n, rng.choice([['project'], ['system'], ['domain']])) for n in names if rng.random() < 0.3] if rng.random() < 0.3 else []
         for qn in queries:
             for creds in rng.sample(CREDS, 3):
+                if registered:
+                    creds = dict(creds, **rng.choice([{'system_scope': 'all'}, {'project_id': 'p'}, {'domain_id': 'd'}]))
                 # (how the rule set reaches the enforcer - a Rules object with the enforcer's default, with
                 #  another one, with none, loaded from text, a dict, the constructor - never matters)
-                c = ec.enforce_case(rules, {'by': 'name', 'name': qn}, {}, creds, dflt=dflt, checklog=1, rng=rng, want='c06',
+                c = ec.enforce_case(rules, {'by': 'name', 'name': qn}, {}, creds, dflt=dflt, checklog=1, rng=rng, want='c06', registered=registered,
                                     via=rng.choice(['rules_obj', 'rules_obj', 'own_default', 'no_default', 'loaded', 'dict', 'ctor']))
                 cases.append(c)
         # a body enforced as a check object: probes are told None
